@@ -238,9 +238,12 @@ class Cleaner:
 
         # Helper function to fetch actual attribute values from modinfo dicts
         def add_entity(mod_info, attr_name, entities):
+            # Coerce IDs the same way modifier info converter does
             try:
-                entity_id = mod_info[attr_name]
-            except (KeyError, TypeError, IndexError):
+                entity_id = int(mod_info[attr_name])
+            except (
+                KeyError, TypeError, IndexError, ValueError, OverflowError
+            ):
                 pass
             else:
                 entities.add(entity_id)
